@@ -15,52 +15,14 @@ use crate::ir::{EdgeParameters, FieldValue};
 use crate::numbers_interpreter::{NumbersAdapter, NumbersVertex};
 use crate::verif_corpus::{corpus, Row};
 use crate::verif_family::{family_args, family_depth1_and_pairs, query_text};
+use crate::verif_batching::{Batching, SCHEDULES};
 use crate::verif_vk as vk;
 use std::cell::Cell;
 use std::collections::{BTreeMap, BTreeSet, VecDeque};
 use std::rc::Rc;
 use std::sync::Arc;
 
-/// Pulls `chunk` items from the inner iterator at a time - the first chunk eagerly at construction.
-struct ReadAhead<I: Iterator> { inner: I, buf: VecDeque<I::Item>, sizes: Rc<Cell<u64>> }
-impl<I: Iterator> ReadAhead<I> {
-    fn next_size(sizes: &Rc<Cell<u64>>) -> usize { let s = sizes.get(); sizes.set(s.rotate_right(2)); (s & 3) as usize + 1 }
-    fn new(inner: I, sizes: Rc<Cell<u64>>) -> Self {
-        let mut r = ReadAhead { inner, buf: VecDeque::new(), sizes };
-        let k = Self::next_size(&r.sizes);
-        r.buf.extend(r.inner.by_ref().take(k));
-        r
-    }
-}
-impl<I: Iterator> Iterator for ReadAhead<I> {
-    type Item = I::Item;
-    fn next(&mut self) -> Option<I::Item> {
-        if self.buf.is_empty() { let k = Self::next_size(&self.sizes); self.buf.extend(self.inner.by_ref().take(k)); }
-        self.buf.pop_front()
-    }
-}
-
-struct Batching { inner: NumbersAdapter, sizes: Rc<Cell<u64>> }
-impl<'a> Adapter<'a> for Batching {
-    type Vertex = NumbersVertex;
-    fn resolve_starting_vertices(&self, edge_name: &Arc<str>, parameters: &EdgeParameters, resolve_info: &ResolveInfo) -> VertexIterator<'a, Self::Vertex> {
-        Box::new(ReadAhead::new(self.inner.resolve_starting_vertices(edge_name, parameters, resolve_info), self.sizes.clone()))
-    }
-    fn resolve_property<V: AsVertex<Self::Vertex> + 'a>(&self, contexts: ContextIterator<'a, V>, type_name: &Arc<str>, property_name: &Arc<str>, resolve_info: &ResolveInfo) -> ContextOutcomeIterator<'a, V, FieldValue> {
-        let contexts: ContextIterator<'a, V> = Box::new(ReadAhead::new(contexts, self.sizes.clone()));
-        Box::new(ReadAhead::new(self.inner.resolve_property(contexts, type_name, property_name, resolve_info), self.sizes.clone()))
-    }
-    fn resolve_neighbors<V: AsVertex<Self::Vertex> + 'a>(&self, contexts: ContextIterator<'a, V>, type_name: &Arc<str>, edge_name: &Arc<str>, parameters: &EdgeParameters, resolve_info: &ResolveEdgeInfo) -> ContextOutcomeIterator<'a, V, VertexIterator<'a, Self::Vertex>> {
-        let contexts: ContextIterator<'a, V> = Box::new(ReadAhead::new(contexts, self.sizes.clone()));
-        Box::new(ReadAhead::new(self.inner.resolve_neighbors(contexts, type_name, edge_name, parameters, resolve_info), self.sizes.clone()))
-    }
-    fn resolve_coercion<V: AsVertex<Self::Vertex> + 'a>(&self, contexts: ContextIterator<'a, V>, type_name: &Arc<str>, coerce_to_type: &Arc<str>, resolve_info: &ResolveInfo) -> ContextOutcomeIterator<'a, V, bool> {
-        let contexts: ContextIterator<'a, V> = Box::new(ReadAhead::new(contexts, self.sizes.clone()));
-        Box::new(ReadAhead::new(self.inner.resolve_coercion(contexts, type_name, coerce_to_type, resolve_info), self.sizes.clone()))
-    }
-}
-
-// @grid c02_grid_read_ahead_independence tier=quick bound="921 family queries (single edges and sibling pairs x scopes x filters) and every numbers query of the corpus; 5 chunk-size schedules (all 1, all 4, and three mixed 2-bit sequences), read-ahead on both the inputs and the outputs of every resolver, first chunk fetched eagerly"
+// @grid c02_grid_read_ahead_independence tier=quick bound="921 family queries (single edges and sibling pairs x scopes x filters) and every numbers query of the corpus; 5 chunk-size schedules (all 1, all 4, and three mixed 2-bit sequences), read-ahead on both the inputs and the outputs of every resolver, first chunk fetched inside the resolver call (5 schedules) or on the first poll (3 schedules)"
 // @ob the sequence of result rows is identical whatever chunk sizes an order-preserving adapter uses to pull its input contexts and buffer its outputs, including eager pre-fetching before its first output; the engine does not crash when an adapter reads ahead
 pub(crate) fn c02_grid_read_ahead_independence() {
     let mut n = 0u64;
@@ -74,14 +36,14 @@ pub(crate) fn c02_grid_read_ahead_independence() {
         let Ok(iq) = crate::frontend::parse(schema.schema(), &q) else { continue; };
         let Ok(plain) = interpret_ir(Arc::new(NumbersAdapter::new()), iq.clone(), Arc::new(args.clone())) else { continue; };
         let plain: Vec<Row> = plain.take(3000).collect();
-        for schedule in [0u64, u64::MAX, 0x1B1B_1B1B_1B1B_1B1B, 0xE4E4_E4E4_E4E4_E4E4, 0x39C6_39C6_39C6_39C6] {
+        for (schedule, call_time) in SCHEDULES.into_iter().map(|s| (s, true)).chain([(SCHEDULES[1], false), (SCHEDULES[2], false), (SCHEDULES[4], false)]) {
             let (iq2, args2) = (iq.clone(), args.clone());
             let got = std::panic::catch_unwind(std::panic::AssertUnwindSafe(move || {
-                let adapter = Arc::new(Batching { inner: NumbersAdapter::new(), sizes: Rc::new(Cell::new(schedule)) });
+                let adapter = Arc::new(Batching { inner: NumbersAdapter::new(), sizes: Rc::new(Cell::new(schedule)), call_time });
                 interpret_ir(adapter, iq2, Arc::new(args2)).expect("accepted").take(3000).collect::<Vec<Row>>()
             }));
             match got {
-                Ok(rows) => if rows != plain { failures.insert(format!("rows differ under read-ahead schedule {schedule:#x}: {label}")); },
+                Ok(rows) => if rows != plain { failures.insert(format!("rows differ under read-ahead schedule {schedule:#x} (call_time={call_time}): {label}")); },
                 Err(p) => { let m = p.downcast_ref::<String>().cloned().or_else(|| p.downcast_ref::<&str>().map(|s| s.to_string())).unwrap_or_default();
                             failures.insert(format!("engine panicked under read-ahead ({}): {label}", m.lines().next().unwrap_or(""))); }
             }
